@@ -350,13 +350,16 @@ static void do_exc(void) {
 }
 
 
-/* exw <n> <mid0>: message-id wrap experiment with a scripted peer.  One exchange answered
- * piggybacked, then n exchanges answered by empty ACK + separate CON response, then one more
- * answered piggybacked.  result: first=<mid> last=<mid> resp_last=<handler calls for the last
+/* exw <n> <mid0> <mode>: message-id wrap experiment with a scripted peer.  mode 0: one exchange
+ * answered piggybacked, then n exchanges answered by empty ACK + separate CON response, then one
+ * more answered piggybacked.  mode 1: first and last answered by a separate CON response, the n in
+ * between by a separate NON response (the peer's mids run 7000, 7001, ... mod 65536).  result: first=<mid> last=<mid> resp_last=<handler calls for the last
  * request> nack_last=<n> queued=<0|1> total_resp=<n> */
 static void do_exw(void) {
   long n = vntok > 1 ? atol(vtok[1]) : 65535;
   int mid0 = vntok > 2 ? atoi(vtok[2]) : 100;
+  int mode = vntok > 3 ? atoi(vtok[3]) : 0;   /* 0: first/last piggybacked, middle separate CON;
+                                                 1: first/last separate CON, middle separate NON */
   coap_address_t peer;
   vn_addr4(&peer, VN_LOOPBACK, 5683);
   vn_now = 1000;
@@ -369,21 +372,21 @@ static void do_exw(void) {
   int first_mid = -1, last_mid = -1, last_resp = 0, last_nack = 0;
   uint8_t b[64];
   for (long e = 0; e <= n + 1; e++) {
-    int piggy = (e == 0 || e == n + 1);
+    int edge = (e == 0 || e == n + 1);
     nreqs = 0;                         /* only the current request is tracked */
-    app_send(piggy ? 0 : 1, 1);
+    app_send(edge && mode == 0 ? 0 : 1, 1);
     if (nreqs != 1) break;
     int mid = reqs[0].mid;
     unsigned long long tok = reqs[0].tok;
     if (e == 0) first_mid = mid;
     size_t len;
-    if (piggy) {
+    if (edge && mode == 0) {
       len = peer_bytes(b, "ar", mid, tok);
       vn_inject_session(cli, cs, b, len);
     } else {
       len = peer_bytes(b, "ae", mid, 0);
       vn_inject_session(cli, cs, b, len);
-      len = peer_bytes(b, "cr", (int)((7000 + e) & 0xffff), tok);
+      len = peer_bytes(b, (mode == 0 || edge) ? "cr" : "nr", (int)((7000 + e) & 0xffff), tok);
       vn_inject_session(cli, cs, b, len);
     }
     total += reqs[0].nresp;
